@@ -106,10 +106,15 @@ pub fn run(ctx: &Ctx, out: &mut CaseOut) {
                     out.count(&format!("nontrivial:{}:{:?}", history, expect));
                 }
             };
-            // (a) fresh solver per goal
+            // (a) fresh solver per goal. A goal whose solve is cut off by the work / wall-clock guard (termination is C09's
+            // subject) is not driven again in the sequences below: each such solve costs the full guard time.
+            let mut blown: std::collections::BTreeSet<usize> = Default::default();
             for gi in 0..goals.len() {
                 if let Some(p) = &peeled[gi] {
                     let rec = solve_translated(&l, choice, p, 300_000);
+                    if matches!(rec.outcome, Outcome::Budget) {
+                        blown.insert(gi);
+                    }
                     let stale = rec.stale_delayed_table;
                     judge_one(out, gi, &rec, "fresh", stale);
                 }
@@ -137,6 +142,10 @@ pub fn run(ctx: &Ctx, out: &mut CaseOut) {
                         Some(p) => p,
                         None => continue,
                     };
+                    if blown.contains(&gi) {
+                        out.count("skipped:goal-already-over-budget-on-a-fresh-solver");
+                        continue;
+                    }
                     let db = FaultDb::new(&*l.program, solver_name(&choice));
                     db.budget.set(300_000);
                     let (outcome, delayed) = match choice {
@@ -149,6 +158,9 @@ pub fn run(ctx: &Ctx, out: &mut CaseOut) {
                         _ => (solve(&mut *other, &db, &p.goal), false),
                     };
                     let rec = finish(&l, p, outcome, &db);
+                    if matches!(rec.outcome, Outcome::Budget) {
+                        blown.insert(gi);
+                    }
                     judge_one(out, gi, &rec, "warm", delayed);
                 }
             }
